@@ -18,6 +18,7 @@ import (
 	"math"
 	"strings"
 
+	"github.com/sboehler/knut/lib/common/compare"
 	"github.com/sboehler/knut/lib/common/dict"
 	"github.com/sboehler/knut/lib/common/set"
 	"github.com/sboehler/knut/lib/syntax"
@@ -81,42 +82,53 @@ func newCountByAccount() countByAccount {
 // P(A | T1 & T2 & ... & Tn) ~ P(A) * P(T1|A) * P(T2|A) * ... * P(Tn|A)
 func (m *Model) Infer(t *syntax.Transaction) {
 	for i := range t.Bookings {
-		credit := t.Bookings[i].Credit.Extract()
-		debit := t.Bookings[i].Debit.Extract()
-		if credit == m.account {
-			t.Bookings[i].Credit = m.inferAccount(t, &t.Bookings[i], debit)
+		b := &t.Bookings[i]
+		if b.Credit.Extract() == m.account {
+			if a, ok := m.inferAccount(t, b, b.Debit.Extract()); ok {
+				b.Credit = a
+			}
 		}
-		if debit == m.account {
-			t.Bookings[i].Debit = m.inferAccount(t, &t.Bookings[i], credit)
+		if b.Debit.Extract() == m.account {
+			if a, ok := m.inferAccount(t, b, b.Credit.Extract()); ok {
+				b.Debit = a
+			}
 		}
 	}
 }
 
-func (m *Model) inferAccount(t *syntax.Transaction, b *syntax.Booking, other string) syntax.Account {
+// inferAccount returns the best candidate for the placeholder. Candidates are
+// visited in name order, so that ties are resolved the same way on every run.
+// It returns false if the model has no candidate.
+func (m *Model) inferAccount(t *syntax.Transaction, b *syntax.Booking, other string) (syntax.Account, bool) {
 	var (
-		tokens = tokenize(t, b, other)
+		tokens = dict.SortedKeys(tokenize(t, b, other), compare.Ordered[token])
 		max    = math.Inf(-1)
 		best   string
+		found  bool
 	)
-	for candidate := range m.countByAccount {
+	for _, candidate := range dict.SortedKeys(m.countByAccount, compare.Ordered[string]) {
 		if candidate == other {
 			continue // the other account of this booking is not a valid candidate
 		}
 		score := m.scoreCandidate(candidate, tokens)
-		if score > max {
+		if !found || score > max {
 			best = candidate
 			max = score
+			found = true
 		}
+	}
+	if !found {
+		return syntax.Account{}, false
 	}
 	return syntax.Account{
 		Range: syntax.Range{Start: 0, End: len(best), Text: best},
-	}
+	}, true
 }
 
-func (m *Model) scoreCandidate(candidate string, tokens set.Set[token]) float64 {
+func (m *Model) scoreCandidate(candidate string, tokens []token) float64 {
 	count := float64(m.countByAccount[candidate])
 	score := math.Log(count / float64(m.count))
-	for token := range tokens {
+	for _, token := range tokens {
 		if countForToken, ok := m.countByTokenAndAccount[token][candidate]; ok {
 			score += math.Log(float64(countForToken) / count)
 		} else {
